@@ -219,8 +219,69 @@ func ruleRefill(p *Prog, r *RuleResult) {
 					}
 				}
 			}
-			if usesN && usesErr {
-				r.ok(fname+" refills in a loop around the underlying Read (count and error both used)", p.IPos(i))
+			// the loop must continue while the request is unsatisfied: some test in the loop compares the
+			// accumulated byte count with the requested count
+			loop := cycleOf(i.Block())
+			sizeVals := map[ssa.Value]bool{}
+			var grow func(v ssa.Value, d int)
+			grow = func(v ssa.Value, d int) {
+				if sizeVals[v] || d > 8 {
+					return
+				}
+				sizeVals[v] = true
+				if refs := v.Referrers(); refs != nil {
+					for _, ref := range *refs {
+						switch x := ref.(type) {
+						case *ssa.Phi:
+							grow(x, d+1)
+						case *ssa.BinOp:
+							if x.Op == token.ADD {
+								grow(x, d+1)
+							}
+						case *ssa.Extract:
+							if x.Index == 0 {
+								grow(x, d+1)
+							}
+						}
+					}
+				}
+			}
+			grow(cv, 0)
+			delete(sizeVals, cv)
+			countP := ssa.Value(f.Params[len(f.Params)-1])
+			satisfied := false
+			for lb := range loop {
+				ifi := blockIf(lb)
+				if ifi == nil {
+					continue
+				}
+				var visit func(v ssa.Value, d int)
+				visit = func(v ssa.Value, d int) {
+					if d > 4 {
+						return
+					}
+					switch x := v.(type) {
+					case *ssa.BinOp:
+						switch x.Op {
+						case token.LSS, token.LEQ, token.GTR, token.GEQ, token.EQL, token.NEQ:
+							if (sizeVals[x.X] && x.Y == countP) || (sizeVals[x.Y] && x.X == countP) {
+								satisfied = true
+							}
+						}
+					case *ssa.UnOp:
+						visit(x.X, d+1)
+					case *ssa.Phi:
+						for _, e := range x.Edges {
+							visit(e, d+1)
+						}
+					}
+				}
+				visit(ifi.Cond, 0)
+			}
+			if usesN && usesErr && satisfied {
+				r.ok(fname+" refills in a loop around the underlying Read until the requested count is reached or an error occurs", p.IPos(i))
+			} else if usesN && usesErr {
+				r.fail(fname+"#underlying.Read", p.IPos(i), "the refill loop is not controlled by a comparison of the bytes obtained with the bytes requested: it can stop after a short read and leave a partial 64-bit word in mid-stream")
 			} else {
 				r.fail(fname+"#underlying.Read", p.IPos(i), "refill loop ignores the byte count or the error of the underlying Read")
 			}
